@@ -307,7 +307,8 @@ func denote(tpe, format, text string) lit {
 			return l2
 		}
 	}
-	if !l.known && (tpe == "integer" || tpe == "number" || tpe == "boolean") && strings.ContainsAny(strings.TrimSpace(text), ",| \t") {
+	closed := tpe == "integer" || tpe == "number" || tpe == "boolean" || (tpe == "string" && (format == "own:x-shout" || format == "own:hexcolor" || format == "hexcolor"))
+	if !l.known && closed && strings.ContainsAny(strings.TrimSpace(text), ",| \t") {
 		// an item produced by splitting with another separator: it still holds a separator
 		// character between other characters, so it is no literal of a numeric or boolean type
 		return lit{true, bad, val{}}
@@ -587,7 +588,8 @@ func emptyRule(d Decl) expect {
 }
 
 func scalarValueRule(d Decl, text string) expect {
-	l := denote(d.Type, d.Format, text)
+	et, ef := d.elem()
+	l := denote(et, ef, text)
 	if !l.known {
 		return expect{Free: true}
 	}
@@ -642,7 +644,8 @@ func listRule(d Decl, items []string) expect {
 			}
 			continue
 		}
-		l := denote(d.ItemType, d.ItemFormat, it)
+		et, ef := d.elem()
+		l := denote(et, ef, it)
 		if !l.known {
 			return expect{Free: true}
 		}
